@@ -11,7 +11,7 @@ CONF = dict(
                  'surjection proofs: completeness (a generated proof verifies against the same tag list) is a Section hypothesis',
                  'range proofs: completeness (a proof signed for value, blinder, tag, script verifies against the commitment made from them) is a Section hypothesis',
                  'the hypothesis of the balance theorems that the parties\' input scalars account for the blinders of what is spent and issued (ownership is a partition with the true openings) and per-asset conservation of the amounts'],
-    explanation='theorems: scalar helpers = v*abf+vbf mod n; per-blinder specs; ledger invariant by induction over any party list; balance of the final transaction for any number and order of parties; v0 final blinder balances the per-output arrays (_partial: up to the arrays); exactly-requested for both blinders and any selection; proof-argument consistency (_partial + two _refuted). K: every published scalar, the last value blinder, the blinded set and the balance verdict bit for bit on 1-3 parties. S: balance with btcec points, every range and surjection proof, blinded-set equality on the final transaction.',
+    explanation='theorems: scalar helpers = v*abf+vbf mod n; per-blinder specs; ledger invariant by induction over any party list; balance of the final transaction for any number and order of parties; v0 final blinder balances the per-output arrays (_partial: up to the arrays); exactly-requested for both blinders and any selection; proof-argument consistency (_partial + two _refuted). K: every published scalar, the last value blinder, the blinded set and the balance verdict bit for bit on 1-4 parties (3- and 4-party exchanges with confidential inputs owned by different parties are generated on purpose); v0 includes blinded (re)issuances, also of an asset spent in the same transaction. S: balance with btcec points, every range and surjection proof, blinded-set equality on the final transaction.',
     nontrivial_rule='distinct case lines on which at least the first blinder succeeded',
 )
 
